@@ -37,6 +37,10 @@ def gen_text_formula(rng, groups=True, rich=True, max_terms=4):
         fac = rng.choice(["g", "h", "g:h", "C(k)"])
         eff = rng.choice(["1", "x", "center(x)", "0 + f", "scale(z)", "f", "bs(x, df=3)", "0 + poly(z, 2)", "0 + bs(x, knots=KN)", "f:x"])
         parts.append(f"({eff} | {fac})")
+        if rng.random() < 0.45:
+            fac2 = rng.choice([v for v in ["g", "h", "f", "C(k)"] if v not in fac.split(":")])
+            eff2 = rng.choice(["1", "x", "z", "0 + x", "scale(z)"])
+            parts.append(f"({eff2} | {fac2})")
     if parts == ["0"]:
         parts.append("x")
     return "y ~ " + " + ".join(parts)
